@@ -33,7 +33,7 @@ UNITS = ["kW", "kWh", "kvar", "kvarh", "kVAr", "kVArh", "V", "A", "var", "varh"]
 def ident_st(draw, id_min=1):
     man = draw(st.sampled_from(["LGF", "XMX", "ELL", "KFM", "ISk", "ADN", "AUX", "KAm"]) | st.tuples(st.sampled_from(UPPER), st.sampled_from(UPPER), st.sampled_from(LETTERS)).map("".join))
     baud = draw(st.sampled_from("0123456789"))
-    esc = "".join("\\" + draw(st.sampled_from("2345WAz9_")) for _ in range(draw(st.sampled_from([0, 0, 0, 1, 2]))))
+    esc = "".join("\\" + draw(st.sampled_from("2345WAz9_")) for _ in range(draw(st.sampled_from([0, 0, 0, 1, 2, 5, 6, 8]))))
     n = draw(st.sampled_from([1, 4, 5, 9, 16]) | st.integers(id_min, 16))
     ident = "".join(draw(st.lists(st.sampled_from(ID_CHARS), min_size=n, max_size=n)))
     if ident.startswith("\\"):
